@@ -64,13 +64,13 @@ def universe(seed, uid, opts=None):
     if uid == 9400:
         return idhref_ir()
     rng = core.rng_for(seed, PROP, 'uni%d' % uid)
-    return gen.rand_universe(rng, opts or gen.Opts(id_href_attrs=True), uid=uid)
+    return gen.rand_universe(rng, opts or gen.Opts(id_href_attrs=True, sub_names=True), uid=uid)
 
 
 def universe_h(seed, uid):
     """universes whose methods declare SOAP request/response headers (one or two classes per direction)"""
     rng = core.rng_for(seed, PROP, 'unih%d' % uid)
-    ir = gen.rand_universe(rng, gen.Opts(headers=True, multi_headers=True, methods=(2, 3), services=(1, 1)), uid=uid)
+    ir = gen.rand_universe(rng, gen.Opts(headers=True, multi_headers=True, methods=(2, 3), services=(1, 1), sub_names=True), uid=uid)
     for sd in ir['services']:
         for md in sd['methods']:
             md.pop('throws', None)
